@@ -27,24 +27,8 @@ theorem fOf_eq (n : Nat) (h0 : 0 < n) (h : n < 2 ^ 64) : fOf n = fN n := by
   simp [UInt64.toNat_div, UInt64.toNat_ofNat]
   omega
 
-theorem qOf_eq (n : Nat) (h : n < 2 ^ 63) : qOf n = qN n := by
+theorem qOf_eq (n : Nat) (h : n < 2 ^ 64) : qOf n = qN n := by
   unfold qOf qU qN
-  simp only
-  have hd : (UInt64.ofNat n * 2).toNat = n * 2 := by
-    simp [UInt64.toNat_mul, UInt64.toNat_ofNat]; omega
-  have hr : ((UInt64.ofNat n * 2) % 3).toNat = n * 2 % 3 := by
-    rw [UInt64.toNat_mod, hd]; rfl
-  have hq : ((UInt64.ofNat n * 2) / 3).toNat = n * 2 / 3 := by
-    rw [UInt64.toNat_div, hd]; rfl
-  have hlt : ((UInt64.ofNat n * 2) % 3 > 0) ↔ (n * 2 % 3 > 0) := by
-    rw [gt_iff_lt, UInt64.lt_iff_toNat_lt, hr]; rfl
-  by_cases hc : n * 2 % 3 > 0
-  · rw [if_pos (hlt.mpr hc), if_pos hc, UInt64.toNat_add, hq]
-    simp; omega
-  · rw [if_neg (fun x => hc (hlt.mp x)), if_neg hc, hq]
-
-theorem qUFix_eq (n : Nat) (h : n < 2 ^ 64) : (qUFix (UInt64.ofNat n)).toNat = qN n := by
-  unfold qUFix qN
   have h1 : (UInt64.ofNat n).toNat = n := by simp; omega
   have hle : UInt64.ofNat n / 3 ≤ UInt64.ofNat n := by
     rw [UInt64.le_iff_toNat_le, UInt64.toNat_div, h1]
@@ -54,14 +38,13 @@ theorem qUFix_eq (n : Nat) (h : n < 2 ^ 64) : (qUFix (UInt64.ofNat n)).toNat = q
   show n - n / 3 = _
   simp only; split <;> omega
 
-theorem qU_wraps : qU (UInt64.ofNat (2 ^ 63)) = 0 := by
-  unfold qU; simp only
+/-- regression witness for the defect repaired by 487454a: the former formula gave `q = 0` for
+`N = 2^63` -/
+theorem qUOld_wraps : qUOld (UInt64.ofNat (2 ^ 63)) = 0 := by
+  unfold qUOld; simp only
   have hd : UInt64.ofNat (2^63) * 2 = 0 := by
     apply UInt64.toNat_inj.mp
     simp
   rw [hd]; rfl
-
-theorem qOf_wraps : qOf (2 ^ 63) = 0 := by
-  unfold qOf; rw [qU_wraps]; rfl
 
 end Juno.C12
